@@ -667,3 +667,4 @@ def directions(chk, repo):
 
 # added rules (appended to the explanation the evidence file carries)
 EXPLANATION += (" " + "Added during the build (DESIGN.md 4.31, second table): (R16.7) in mbx_send every path from 'mail pending' to the mailbox write passes mbx_recv().")
+EXPLANATION += (' Added after wave 9: (R16.5) mbx_recv has no explicit give-up before the mailbox is read; the lock-file model of C15 is shared.')
